@@ -350,7 +350,7 @@ def run(report: Report, tier: str, only: Optional[str] = None) -> None:
                            'Reader._decompress_data per preset on an 11 MiB buffer with matches more than 8 MiB back: not solver-decided)',
                            'z3 5.1.0', 'pysym proxies']
     if not only or 'lzma' in only:
-        common.run_pool(_lzma_job, [6, 7, 9] if tier == 'quick' else list(range(10)) + [9 | 0x80000000], report)
+        common.run_pool(_lzma_job, [6, 7, 9] if tier == 'quick' else list(range(10)), report)
     report.require_witnesses('roundtrip:written', 'roundtrip:rejected-by-writer', 'roundtrip:lazy-zero-tail',
                              'roundtrip:relative-jumps')
     widths = (8, 16, 32, 64)
